@@ -145,6 +145,16 @@ Theorem C06_provenance : forall p idem cl0 plan outs tr r,
   exists s1 s2, session_policy s1 = p /\ decide s1 (mk_ri e idem c) = (s2, d).
 Proof. exact fiber_provenance. Qed.
 
+(* ... constructively: the decisions recorded along a run are exactly [decide_history] of ONE fresh
+   session of the request's policy on the history of failed attempts (each with its error, the
+   request's idempotence and the consistency that attempt used), in order -- every decision is a
+   function of the history before it *)
+Theorem C06_provenance_history : forall p idem cl0 plan outs tr r,
+  fiber p idem cl0 plan outs = (tr, r) ->
+  attempt_decisions tr = decide_history (new_session p) (attempt_infos idem tr).
+Proof. exact fiber_decisions. Qed.
+
+
 (* the first attempt uses the request's consistency, and a consistency carried by a decision
    is used from the next attempt on (otherwise it stays). *)
 Theorem C06_first_cl : forall p idem cl0 plan outs tr r,
@@ -292,6 +302,13 @@ Example C06_ex_ignore :
   = ([EvAttempt 1%N CQuorum (AErr (EDbError (DbWriteTimeout 1 2 WSimple)) IgnoreWriteError)],
      RIgnoredWriteError 1%N).
 Proof. vm_compute. reflexivity. Qed.
+
+Example C06_ex_provenance_history :
+  let '(tr, _) := fiber PDefault false CQuorum [1; 2; 3]%N
+        [OError ex_unavail; OConnFail; OError ex_rt_ok; OError ex_unavail; OSuccess] in
+  attempt_infos false tr = [mk_ri ex_unavail false CQuorum; mk_ri ex_rt_ok false CQuorum; mk_ri ex_unavail false CQuorum]
+  /\ attempt_decisions tr = [RetryNextTarget None; RetrySameTarget None; DontRetry].
+Proof. vm_compute. split; reflexivity. Qed.
 
 (* "the driver sends exactly the attempts the policy decided", with the recorded decisions: the
    trace walks the plan -- after RetrySameTarget the same target, after RetryNextTarget or a failed
@@ -458,30 +475,84 @@ Theorem C06_e2e_no_more : forall p idem cl0 nodes down c frs tret o co,
   frames_follow idem (new_session p) frs = true.
 Proof. exact single_no_more. Qed.
 
+(* Client-side request timeout.  What the code does: `tokio::time::timeout(timeout, runner)` wraps the
+   whole execution (all fibers); when it fires the runner future is dropped, the caller gets
+   RequestTimeout and nothing is sent any more.  An accepted observation of a timed-out request: at most
+   1 + max fibers (ONE when the request is not idempotent or has no speculative policy), each a run of
+   the model up to the moment it was cancelled, within the whole-request frame bound; the call returned
+   no earlier than the timeout after it started; no frame arrives more than the margin after it returned. *)
+Theorem C06_e2e_timeout : forall p idem spec cl0 nodes down cs assign frs t0 tmo tret margin,
+  check_timeout p idem spec cl0 nodes down cs assign frs t0 tmo tret margin = true ->
+  let max := match gate_open idem spec with Some m => m | None => 0%nat end in
+  (1 <= List.length cs <= 1 + max)%nat
+  /\ NoDup (concat (map c_plan cs)) /\ incl (concat (map c_plan cs)) nodes
+  /\ (forall i c, nth_error cs i = Some c ->
+       exists tr r, fiber p idem cl0 (c_plan c) (c_outs c) = (tr, r)
+                    /\ match_frames (c_free c) (attempts tr) (sub_frames i assign frs) = true
+                    /\ seq_ok (sub_frames i assign frs) = true
+                    /\ (forall t, In t (conn_fail_targets tr) -> In t down))
+  /\ (List.length frs <= frame_bound p (1 + max) (List.length nodes))%nat
+  /\ (t0 + tmo <= tret)%N
+  /\ (forall f, In f frs -> (f_arr f <= tret + margin)%N).
+Proof. exact timeout_sound. Qed.
+
+Example C06_ex_timeout :
+  (* not idempotent, timeout 100 ms, the only frame unanswered when the call returned at 101 ms *)
+  check_timeout PDefault false (Some 2%nat) CQuorum [0; 1; 2]%N [] [mkCert [2]%N [OSuccess] true] [0%nat]
+    [mkFrame 2 CQuorum 10 AnsNone 0 0] 0 100000 101000 150000 = true /\
+  (* ... a second fiber is not accepted for it *)
+  check_timeout PDefault false (Some 2%nat) CQuorum [0; 1; 2]%N []
+    [mkCert [2]%N [OSuccess] true; mkCert [0]%N [OSuccess] true] [0; 1]%nat
+    [mkFrame 2 CQuorum 10 AnsNone 0 0; mkFrame 0 CQuorum 30010 AnsNone 0 0] 0 100000 101000 150000 = false /\
+  (* a frame long after the call returned; a call that returned before the timeout *)
+  check_timeout PDefault false None CQuorum [0; 1; 2]%N [] [mkCert [2]%N [OSuccess] true] [0%nat]
+    [mkFrame 2 CQuorum 400000 AnsNone 0 0] 0 100000 101000 150000 = false /\
+  check_timeout PDefault false None CQuorum [0; 1; 2]%N [] [mkCert [2]%N [OSuccess] true] [0%nat]
+    [mkFrame 2 CQuorum 10 AnsNone 0 0] 0 100000 90000 150000 = false.
+Proof. vm_compute. repeat split; reflexivity. Qed.
+
+(* Shard-aware targets: a plan target is a (node, shard) pair.  Consecutive frames of an accepted
+   request on one node (a same-target retry) arrive on the same shard -- unless that node lost a
+   connection (the pool then hands out a connection of another shard). *)
+Theorem C06_e2e_same_shard : forall p idem cl0 nodes down c frs tret o co,
+  check_single p idem cl0 nodes down c frs tret o co = true ->
+  forall pre f g post, frs = pre ++ f :: g :: post -> f_node g = f_node f -> ~ In (f_node f) down ->
+  f_shard g = f_shard f.
+Proof. exact single_shards. Qed.
+
+Example C06_ex_same_shard :
+  (* ReadTimeout -> RetrySameTarget: node 2 again, on shard 1 again: accepted; on shard 0: not *)
+  check_single PDefault false CQuorum [0; 1; 2]%N [] (mkCert [2; 0; 1]%N [OError ex_rt_ok; OSuccess] false)
+    [mkFrame 2 CQuorum 10 (AnsErr ex_rt_ok) 20 1; mkFrame 2 CQuorum 30 AnsOk 40 1] 50 OCompleted (Some 2%N) = true /\
+  check_single PDefault false CQuorum [0; 1; 2]%N [] (mkCert [2; 0; 1]%N [OError ex_rt_ok; OSuccess] false)
+    [mkFrame 2 CQuorum 10 (AnsErr ex_rt_ok) 20 1; mkFrame 2 CQuorum 30 AnsOk 40 0] 50 OCompleted (Some 2%N) = false /\
+  shards_ok [2]%N [mkFrame 2 CQuorum 10 (AnsErr ex_rt_ok) 20 1; mkFrame 2 CQuorum 30 AnsOk 40 0] = true.
+Proof. vm_compute. repeat split; reflexivity. Qed.
+
 (* non-vacuity.  Not idempotent, Default, 3 nodes: Unavailable on node 2 (answered at 20), then
    success on node 0 -- accepted; the same frames with the second one arriving BEFORE the first
    was answered (a second node contacted without any failure: what a speculative execution of a
    request that is not idempotent looks like) -- no certificate can be accepted: the property
    predicate is false, and so is the checker on the natural certificate. *)
-Definition ex_f1 (done_ : N) := mkFrame 2 CQuorum 10 (AnsErr ex_unavail) done_.
-Definition ex_f2 := mkFrame 0 CQuorum 40 AnsOk 45.
+Definition ex_f1 (done_ : N) := mkFrame 2 CQuorum 10 (AnsErr ex_unavail) done_ 0.
+Definition ex_f2 := mkFrame 0 CQuorum 40 AnsOk 45 0.
 Definition ex_cert := mkCert [2; 0; 1]%N [OError ex_unavail; OSuccess] false.
 Example C06_ex_e2e :
   check_single PDefault false CQuorum [0; 1; 2]%N [] ex_cert [ex_f1 20; ex_f2] 50 OCompleted (Some 0%N) = true /\
   e2e_check PDefault false (Some 2%nat) CQuorum [0; 1; 2]%N [] [ex_cert] [0; 0]%nat [ex_f1 20; ex_f2] 50 OCompleted (Some 0%N) = true /\
   check_single PDefault false CQuorum [0; 1; 2]%N [] ex_cert [ex_f1 300; ex_f2] 50 OCompleted None = false /\
   prop_frames PDefault false (Some 2%nat) 3 [ex_f1 300; ex_f2] = false /\
-  prop_frames PDefault false (Some 2%nat) 3 [mkFrame 2 CQuorum 10 AnsOk 300; ex_f2] = false /\
+  prop_frames PDefault false (Some 2%nat) 3 [mkFrame 2 CQuorum 10 AnsOk 300 0; ex_f2] = false /\
   (* idempotent with a policy: two fibers, the first one cancelled while its frame was in flight *)
   e2e_check PDefault true (Some 2%nat) CQuorum [0; 1; 2]%N []
             [mkCert [2]%N [OSuccess] true; mkCert [0]%N [OSuccess] false] [0; 1]%nat
-            [mkFrame 2 CQuorum 10 AnsNone 0; ex_f2] 50 OCompleted (Some 0%N) = true /\
+            [mkFrame 2 CQuorum 10 AnsNone 0 0; ex_f2] 50 OCompleted (Some 0%N) = true /\
   (* the result names the node whose answer was returned *)
   check_single PDefault false CQuorum [0; 1; 2]%N [] ex_cert [ex_f1 20; ex_f2] 50 OCompleted (Some 2%N) = false /\
   (* ... but not more fibers than 1 + max *)
   e2e_check PDefault true (Some 0%nat) CQuorum [0; 1; 2]%N []
             [mkCert [2]%N [OSuccess] true; mkCert [0]%N [OSuccess] false] [0; 1]%nat
-            [mkFrame 2 CQuorum 10 AnsNone 0; ex_f2] 50 OCompleted None = false.
+            [mkFrame 2 CQuorum 10 AnsNone 0 0; ex_f2] 50 OCompleted None = false.
 Proof. vm_compute. repeat split; reflexivity. Qed.
 
 Print Assumptions C06_safe_set.
@@ -518,16 +589,16 @@ Print Assumptions C06_trace_prop_ok.
 Example C06_ex_prop_frames :
   prop_frames PFallthrough false None 3 [ex_f1 20; ex_f2] = false /\
   prop_frames PDefault false None 3 [ex_f1 20; ex_f2] = true /\
-  prop_frames PDefault false None 3 [mkFrame 2 CQuorum 10 (AnsErr (EDbError DbOverloaded)) 20; ex_f2] = false /\
-  prop_frames PDefault true None 3 [mkFrame 2 CQuorum 10 (AnsErr (EDbError DbOverloaded)) 20; ex_f2] = true /\
-  prop_frames PDefault true None 3 [mkFrame 2 CSerial 10 (AnsErr ex_unavail) 20; mkFrame 0 CSerial 40 AnsOk 45] = false /\
-  prop_frames PFallthrough true (Some 1%nat) 3 [ex_f1 20; ex_f2; mkFrame 1 CQuorum 60 AnsOk 70] = false /\
-  prop_frames PFallthrough true (Some 2%nat) 3 [ex_f1 20; ex_f2; mkFrame 1 CQuorum 60 AnsOk 70] = true /\
+  prop_frames PDefault false None 3 [mkFrame 2 CQuorum 10 (AnsErr (EDbError DbOverloaded)) 20 0; ex_f2] = false /\
+  prop_frames PDefault true None 3 [mkFrame 2 CQuorum 10 (AnsErr (EDbError DbOverloaded)) 20 0; ex_f2] = true /\
+  prop_frames PDefault true None 3 [mkFrame 2 CSerial 10 (AnsErr ex_unavail) 20 0; mkFrame 0 CSerial 40 AnsOk 45 0] = false /\
+  prop_frames PFallthrough true (Some 1%nat) 3 [ex_f1 20; ex_f2; mkFrame 1 CQuorum 60 AnsOk 70 0] = false /\
+  prop_frames PFallthrough true (Some 2%nat) 3 [ex_f1 20; ex_f2; mkFrame 1 CQuorum 60 AnsOk 70 0] = true /\
   frame_bound PDefault 3 4 = 10%nat /\ frame_bound PDowngrading 1 3 = 4%nat /\ frame_bound PFallthrough 3 4 = 3%nat /\
   prop_frames PDefault false None 3
-    [mkFrame 2 CQuorum 10 (AnsErr (EDbError DbUnprepared)) 20; mkFrame 2 CQuorum 30 AnsOk 40] = true /\
+    [mkFrame 2 CQuorum 10 (AnsErr (EDbError DbUnprepared)) 20 0; mkFrame 2 CQuorum 30 AnsOk 40 0] = true /\
   prop_frames PDefault false None 3
-    [mkFrame 2 CQuorum 10 (AnsErr (EDbError DbUnprepared)) 20; mkFrame 0 CQuorum 30 AnsOk 40] = false.
+    [mkFrame 2 CQuorum 10 (AnsErr (EDbError DbUnprepared)) 20 0; mkFrame 0 CQuorum 30 AnsOk 40 0] = false.
 Proof. vm_compute. repeat split; reflexivity. Qed.
 
 (* the per-decision predicate of the driver on rejecting inputs *)
@@ -540,12 +611,15 @@ Example C06_ex_prop_decision :
   prop_decision_ok PDefault (mk_ri ex_unavail false CQuorum) (RetryNextTarget None) = true.
 Proof. vm_compute. repeat split; reflexivity. Qed.
 
+Print Assumptions C06_provenance_history.
 Print Assumptions C06_followed.
 Print Assumptions C06_next_target.
 Print Assumptions C06_trace_prop_full.
 Print Assumptions C06_e2e_prop_frames_any.
 Print Assumptions C06_e2e_request_bound.
 Print Assumptions C06_e2e_no_more.
+Print Assumptions C06_e2e_same_shard.
+Print Assumptions C06_e2e_timeout.
 Print Assumptions C06_e2e_run.
 Print Assumptions C06_e2e_resend.
 Print Assumptions C06_e2e_unsafe_final.
